@@ -71,8 +71,10 @@ func (r *Route) match(detectionPath, path string, params *[maxParams]string) boo
 
 	// '*' wildcard matches any detectionPath
 	if r.star {
-		if len(path) > 1 {
-			params[0] = path[1:]
+		// take the value from the span the detection path covers: like every other
+		// pattern, "/*" does not capture the trailing slashes that non-strict routing ignores
+		if len(detectionPath) > 1 && len(detectionPath) <= len(path) {
+			params[0] = path[1:len(detectionPath)]
 		} else {
 			params[0] = ""
 		}
